@@ -399,7 +399,8 @@ class BaseClient:
 
         :rtype: :py:class`str`
         """
-        return d.strftime("%Y%m%d%H%M00")
+        # (the C library does not pad years below 1000)
+        return f"{d.year:04d}" + d.strftime("%m%d%H%M00")
 
     @classmethod
     def parse_ls_date(cls, s, *, now=None):
@@ -468,7 +469,7 @@ class BaseClient:
         i = s.index(" ")
         info["unix.links"] = s[:i]
 
-        if not info["unix.links"].isdigit():
+        if not (info["unix.links"].isascii() and info["unix.links"].isdigit()):
             raise ValueError
 
         s = s[i:].lstrip()
@@ -481,7 +482,7 @@ class BaseClient:
         i = s.index(" ")
         info["size"] = s[:i]
 
-        if not info["size"].isdigit():
+        if not (info["size"].isascii() and info["size"].isdigit()):
             raise ValueError
 
         s = s[i:].lstrip()
@@ -525,7 +526,7 @@ class BaseClient:
         else:
             info["type"] = "file"
             info["size"] = line[:next_space].replace(",", "")
-            if not info["size"].isdigit():
+            if not (info["size"].isascii() and info["size"].isdigit()):
                 raise ValueError
         # This here could cause a problem if a filename started with
         # whitespace, but if we were to try to detect such a condition
